@@ -482,7 +482,6 @@ impl Runner {
             "distinct_nontrivial": self.states,
             "rule": level_rule,
             "skipped_out_of_claimed_range": self.skipped,
-            "result_digest": format!("{:016x}", self.digest),
             "phases": self.phases,
             "worst_ratio_per_clause": worst,
             "counters": self.counters,
